@@ -9,7 +9,7 @@ META = dict(
     functions=['transceiver.Transceiver.clck_tick', 'transceiver.Transceiver.recv_data_msg', 'transceiver.Transceiver.tx_queue_append/tx_queue_clear', 'transceiver.Transceiver.power_event_handler',
                'data_if.DATAInterface.recv_tx_msg/recv_raw_data/match_hdr_ver', 'data_msg.TxMsg.parse_msg', 'fake_trx.Application.clck_handler', 'ctrl_if_trx.CTRLInterfaceTRX.parse_cmd (SETFORMAT)'],
     bounds=dict(quick='one step from an ARBITRARY queue of k <= 3 messages with symbolic frame numbers (0..2715647) and a symbolic running flag; step = clck_tick(fn) with symbolic fn | recv_data_msg of a symbolic valid datagram (symbolic FN, version 0/1 vs negotiated 0/1) | power on/off | SETFORMAT v; '
-                      'plus every 3-operation history from the empty queue with symbolic frame numbers; two constructor-built transceivers (independent / parent+child): a burst accepted by one is invisible to the other, survives its power-off, is emitted once by its owner; schedules: one arrival or power command racing one tick, all orders of their lock-protected sections and running-flag accesses (preemption bound 3), data symbolic',
+                      'plus every 3-operation history from the empty queue with symbolic frame numbers; two constructor-built transceivers (independent / parent+child): a burst accepted by one is invisible to the other, survives its power-off, is emitted once by its owner; schedules: one arrival or power command racing one tick, all orders of their lock operations, running-flag accesses and queue-attribute accesses (preemption bound 3), data symbolic',
                 thorough='k <= 4; 4-operation histories'),
     stubs=['fake socket', 'logging (records "Stale TRXD message")', 'burst forwarder stub recording forward_msg(src, msg)', 'threads serialised by a baton: exactly one runs at a time; scheduler choices are symbolic booleans explored by forking'],
     outside=['preemption inside CPython bytecodes below lock granularity', 'queues longer than 4'],
@@ -270,6 +270,14 @@ def h_race(ctx, op, k):
             @running.setter
             def running(self, v):
                 sched.point('write running'); self.__dict__['_running'] = v
+            # every access to the queue attribute is a preemption point too: with the lock held the other thread
+            # just blocks, without it (a lock dropped somewhere) the interleaving becomes visible
+            @property
+            def _tx_queue(self):
+                sched.point('read queue'); return self.__dict__['_q']
+            @_tx_queue.setter
+            def _tx_queue(self, v):
+                sched.point('write queue'); self.__dict__['_q'] = v
 
         trx = RTRX('0.0.0.0', '127.0.0.1', 5700, name='T')
         trx._rx_freq = trx._tx_freq = 1
